@@ -307,4 +307,9 @@ def r7_entry_exit(ctx):
     _cfgedges.entry_exit_rule(ctx, "C17.r7")
 
 
-RULES = [r1_dce_guard, r2_keep, r3_live_update, r4_lowering, r5_clone, r6_edges, r7_entry_exit]
+def r8_registration(ctx):
+    ctx.rule("C17.r8", "the def/use sets DCE consumes are complete: every operand of every statement is registered", floor=70)
+    _stmts.registration_rule(ctx, "C17.r8")
+
+
+RULES = [r8_registration, r1_dce_guard, r2_keep, r3_live_update, r4_lowering, r5_clone, r6_edges, r7_entry_exit]
